@@ -9,7 +9,8 @@ const char* const H_PROPERTY = "C06";
 #define MAXFB 8
 #define MAXOPS 6
 enum { S_WAIT = 0, S_TRYWAIT, S_POST, S_YIELD };
-static fiber_semaphore_t sem;
+static fiber_semaphore_t* sem_p; /* heap memory with arbitrary previous contents */
+#define sem (*sem_p)
 static int sinit, successes, posts_begun, posts_done;
 static struct {
   int n, op[MAXOPS];
@@ -112,6 +113,7 @@ void h_run(void) {
   sim_describe("threads=%d init=%d fibers=%d waits=%d posts=%d extra_poster=%d preempt=1/%d", c.threads, sinit, nfib, total_wait, total_post, extra, c.preempt_inv);
   sim_fiber_mode();
   fiber_manager_init(c.threads);
+  sem_p = h_dirty_alloc(sizeof *sem_p);
   fiber_semaphore_init(&sem, sinit);
   fiber_t* f[MAXFB + 16];
   if (nfib > MAXFB + 16) sim_violation("SIM-harness-table", "%d fibers", nfib);
